@@ -433,6 +433,9 @@ class SArr(_ND):
     # -- ufuncs -----------------------------------------------------------------
     def __array_ufunc__(self, ufunc, method, *inputs, **kwargs):
         name = ufunc.__name__
+        for x in inputs:
+            if _is_larr(x):
+                return x.__array_ufunc__(ufunc, method, *inputs, **kwargs)
         if name == "matmul" and method == "__call__":
             r = _matmul(*inputs)
             out = kwargs.get("out")
@@ -513,6 +516,13 @@ class SArr(_ND):
 
     # -- functions --------------------------------------------------------------
     def __array_function__(self, func, types, args, kwargs):
+        for x in args:
+            if _is_larr(x):
+                return x.__array_function__(func, types, args, kwargs)
+            if isinstance(x, (list, tuple)):
+                for y in x:
+                    if _is_larr(y):
+                        return y.__array_function__(func, types, args, kwargs)
         h = HANDLED.get(func)
         if h is not None:
             return h(*args, **kwargs)
@@ -1243,6 +1253,13 @@ class _Random:
 
     def _fresh(self, shape):
         c = core.ctx()
+        q = c.memo.get("rand_queue")
+        if q:
+            a = q[0]
+            shp = (shape,) if isinstance(shape, (int, rnp.integer)) else (tuple(shape) if shape is not None else ())
+            if tuple(a.shape) == tuple(shp):
+                q.pop(0)
+                return a.copy() if isinstance(a, _ND) else a
         c.trusted.add("numpy.random: modelled as havoc (every value in range)")
         if shape is None or shape == ():
             v = c.fresh(z3.RealSort(), "rand")
